@@ -104,7 +104,12 @@ def eng_gates(f, sub, prop):
     gates.run_gates(f, sub, prop)
 
 
-ENGINES = {"gates": eng_gates, "tables": eng_tables, "uxcomp": eng_uxcomp, "ctflow": eng_ctflow, "totality": eng_totality}
+def eng_maskdom(f, sub, prop):
+    from . import maskdom
+    maskdom.run_maskdom(f, sub, prop, want=("K1", "K2") if prop == "C20" else ("K2",))
+
+
+ENGINES = {"maskdom": eng_maskdom, "gates": eng_gates, "tables": eng_tables, "uxcomp": eng_uxcomp, "ctflow": eng_ctflow, "totality": eng_totality}
 
 
 # ---- properties --------------------------------------------------------------
@@ -185,7 +190,7 @@ def check_totality(prop):
     def chk(tier):
         run = Run(prop, tier, level="other")
         cfgs = configs_for(tier)
-        stats = run_engines(run, ["totality"], cfgs, prop)
+        stats = run_engines(run, ["totality", "maskdom"] if prop == "C19" else ["totality"], cfgs, prop)
         nsites = sum(s["totality"].get("sites", 0) for s in stats.values())
         return run.finish(
             explanation=TOTALITY_TEXT[prop],
@@ -242,7 +247,13 @@ def check_gates(prop, engines, level="other"):
     return chk
 
 
-CHECKS = {"C05": check_gates("C05", ["gates"]), "C06": check_gates("C06", ["gates"]), "C07": check_gates("C07", ["gates"]),
+GATE_TEXT["C20"] = ("Structural core of C20, part 1 (maskdom): K1 every control word reaching a conditional copy / select / swap / "
+                   "negate / lookup primitive (parameters named ctl and parameters forwarded to them) has a value set within "
+                   "{0, 0xFFFFFFFF} at every call site (value-set / interval / signed-range / SIMD lane-mask abstract "
+                   "interpretation, context-sensitive on small helpers); K2 every predicate returns such a word. Part 2 "
+                   "(muxshape, when built): the primitives are bitwise multiplexers over all limbs/fields. NOT decided: that "
+                   "iszero/equals compute mathematical equality, that a lookup mask selects the requested index.")
+CHECKS = {"C20": check_gates("C20", ["maskdom"]), "C05": check_gates("C05", ["gates"]), "C06": check_gates("C06", ["gates"]), "C07": check_gates("C07", ["gates"]),
           "C08": check_gates("C08", ["gates"]), "C09": check_gates("C09", ["gates"]),
           "C15": check_gates("C15", ["gates", "totality"]), "C16": check_gates("C16", ["gates"]),
           "C02": check_C02, "C04": check_C04, "C13": check_gates("C13", ["uxcomp", "gates"], level="exploration"),
